@@ -394,7 +394,7 @@ macro_rules! unpaired_acc {
                                 let d = ea.mean_f() - eb.mean_f();
                                 let ok = gk == wk
                                     && [(gl, wl), (gh, wh)].iter().all(|&(x, y)| {
-                                        x == y || (!(eps <= 1e-2)) || (x - y).abs() <= 2.0 * (tol_mean::<$f>(&ea) + tol_mean::<$f>(&eb) + (y - d).abs() * 2.0 * eps + 4.0 * <$f as Fl>::U * y.abs())
+                                        x == y || (!(eps <= 1e-2)) || (x.is_finite() && y.is_finite()) && (x - y).abs() <= 2.0 * (tol_mean::<$f>(&ea) + tol_mean::<$f>(&eb) + (y - d).abs() * 2.0 * eps + 4.0 * <$f as Fl>::U * y.abs())
                                     });
                                 if !ok {
                                     s.violation(format!("{}/ci-differs-from-batch", Self::NAME), format!("history gives {g:?}, batch Unpaired::ci gives {w:?}"), case());
